@@ -567,7 +567,7 @@ func stalledReconnect(c *ctx, k int) {
 // outage: the stream fails and stream creation keeps failing for more than one whole reconnect budget (the back-off
 // policy is replaced by a 3-attempt constant one through a verif hook); cached resources stay served meanwhile; when
 // the control plane is reachable again the client must open a new stream and re-subscribe (C04).
-func outage(c *ctx, budgets int) {
+func outage(c *ctx, budgets, burst int) {
 	w, err := newWorld(worldOpts{ndsNotRequired: true, fetchTimeout: time.Millisecond})
 	if err != nil {
 		fmt.Println("hist: world:", err)
@@ -586,7 +586,13 @@ func outage(c *ctx, budgets int) {
 	})
 	served := ""
 	hang := false
-	h.step(obj{"o": "outage", "budgets": budgets}, func() {
+	burstHang := false
+	var returned int64
+	names := make([]string, burst)
+	for i := range names {
+		names[i] = fmt.Sprintf("o%04d", i)
+	}
+	h.step(obj{"o": "outage", "budgets": budgets, "names": names}, func() {
 		w.ads.mu.Lock()
 		w.ads.failCreate = 1 << 30
 		base := w.ads.createAttempts
@@ -599,6 +605,24 @@ func outage(c *ctx, budgets int) {
 			return w.ads.createAttempts-base >= 3*budgets
 		}, 10*time.Second)
 		served = w.get(rtOf("eds"), "e1")
+		if burst > 0 {
+			// more lookups miss during the outage than the request channel holds: each of them must still come back
+			// with its time-out error (nothing reaches the control plane; the re-subscription will carry the names)
+			done := make(chan struct{})
+			go func() {
+				for _, nm := range names {
+					_ = w.get(rtOf("eds"), nm)
+					atomic.AddInt64(&returned, 1)
+				}
+				close(done)
+			}()
+			select {
+			case <-done:
+			case <-time.After(time.Duration(burst)*6*time.Millisecond + 6*time.Second):
+				burstHang = true
+				return
+			}
+		}
 		w.ads.mu.Lock()
 		w.ads.failCreate = 0
 		w.ads.mu.Unlock()
@@ -614,6 +638,11 @@ func outage(c *ctx, budgets int) {
 	if ob, ok := last["obs"].(obj); ok {
 		ob["servedDuring"] = served
 		ob["noNewStream"] = hang
+		if burstHang {
+			// the step's settle timed out as well ("hang"); say where
+			ob["burstHang"] = true
+			ob["returned"] = atomic.LoadInt64(&returned)
+		}
 	}
 	uni := obj{"lds": []string{xdsresource.ReservedLdsResourceName}, "rds": []string{}, "cds": []string{}, "eds": []string{"e1"}}
 	c.count("outage", 1)
@@ -632,12 +661,17 @@ func init() {
 		runHistories(c, histProfile{steps: 40, pFault: 3, pBad: 10, pUnsolicited: 25, pGet: 40, sendFail: false}, 60*c.budget)
 	}
 	props["C02"] = func(c *ctx) {
-		stalledAck(c, 1040, false)
-		stalledAck(c, 1040, true)
+		flowCase(c, "ack", 1040)
+		stalledAck(c, 1040, c.rng.chance(50))
+		if c.thorough() {
+			stalledAck(c, 1040, false)
+			stalledAck(c, 1040, true)
+		}
 		runHistories(c, histProfile{steps: 40, pFault: 2, pBad: 40, pUnsolicited: 15, pGet: 30}, 60*c.budget)
 	}
 	props["C03"] = func(c *ctx) {
 		stalledBurst(c, 1040)
+		flowCase(c, "burst", 1040)
 		// a stream failure racing ONE lookup: the sender takes either the queued request first (it goes to the dead stream,
 		// so the re-subscription must carry the change) or the new stream first; both orders occur over the repetitions
 		for i := 0; i < 10*c.budget && !c.expired(); i++ {
@@ -653,8 +687,10 @@ func init() {
 		for i := 0; i < 6*c.budget && !c.expired(); i++ {
 			stalledReconnect(c, 1+i%2)
 		}
-		outage(c, 1)
-		outage(c, 3)
+		outage(c, 1, 0)
+		outage(c, 3, 0)
+		outage(c, 1, 1040)
 		runHistories(c, histProfile{steps: 30, pFault: 22, pBad: 15, pUnsolicited: 10, pGet: 35, authStop: true, createFail: c.thorough(), sendFail: true}, 50*c.budget)
 	}
 }
+
